@@ -259,9 +259,7 @@ func runChild(c *childCfg) {
 						continue
 					}
 					ent := kv.NewEntry(keyBytes(e.Key), valueBytes(i, e.Key, e.Len))
-					if e.Exp {
-						ent.ExpiresAt = farExpiry
-					}
+					ent.ExpiresAt = expiryOf(e.Exp)
 					if err := txn.SetEntry(ent); err != nil {
 						return err
 					}
@@ -393,29 +391,55 @@ func dump(db *NoKV.DB, specs []opSpec) string {
 			txnLines = append(txnLines, i)
 		}
 	}
-	type group struct{ present, dangling, bad, extra int }
+	type group struct{ present, dangling, bad, extra, line int }
 	groups := map[uint64]*group{}
 	newest := map[string]struct {
 		ver    uint64
 		status string
 		val    []byte
 	}{}
+	// pass 1: read every listed (key, version) once
+	type got struct {
+		key string
+		ver uint64
+		ent *kv.Entry
+		err error
+	}
+	var gots []got
 	seen := map[string]bool{}
+	lineOfVer := map[uint64]int{}
 	for _, l := range listed {
 		id := fmt.Sprintf("%s@%d", l.key, l.ver)
 		if seen[id] {
 			continue // the same internal key in several sources (WAL replay + SST): one logical entry
 		}
 		seen[id] = true
+		ent, err := db.GetVersionedEntry(kv.CFDefault, []byte(l.key), l.ver)
+		gots = append(gots, got{l.key, l.ver, ent, err})
+		// which workload line wrote this version: the value says so (versions are reused after a
+		// crash that lost transactions); deletes and unreadable values fall back to the ordinal
+		if err == nil && ent.Meta&kv.BitDelete == 0 {
+			if ln := lineOfValue(ent.Value); ln >= 0 && ln < len(specs) && specs[ln].Kind == "txn" {
+				lineOfVer[l.ver] = ln
+			}
+		}
+	}
+	for _, l := range gots {
 		g := groups[l.ver]
 		if g == nil {
-			g = &group{}
+			g = &group{line: -1}
 			groups[l.ver] = g
 		}
 		var want *entSpec
-		line := -1
-		if l.ver >= 1 && int(l.ver) <= len(txnLines) {
-			line = txnLines[l.ver-1]
+		line, ok := lineOfVer[l.ver]
+		if !ok {
+			line = -1
+			if l.ver >= 1 && int(l.ver) <= len(txnLines) {
+				line = txnLines[l.ver-1]
+			}
+		}
+		g.line = line
+		if line >= 0 {
 			for j := range specs[line].Ents {
 				if string(keyBytes(specs[line].Ents[j].Key)) == l.key {
 					want = &specs[line].Ents[j]
@@ -428,7 +452,7 @@ func dump(db *NoKV.DB, specs []opSpec) string {
 		}
 		status := "ok"
 		var val []byte
-		ent, err := db.GetVersionedEntry(kv.CFDefault, []byte(l.key), l.ver)
+		ent, err := l.ent, l.err
 		switch {
 		case err != nil:
 			status = "dangling"
@@ -440,12 +464,10 @@ func dump(db *NoKV.DB, specs []opSpec) string {
 			}
 		default:
 			val = ent.Value
-			wantExp := uint64(0)
-			if want.Exp {
-				wantExp = farExpiry
-			}
-			if ent.Meta&kv.BitDelete != 0 || !bytes.Equal(ent.Value, valueBytes(line, want.Key, want.Len)) || ent.ExpiresAt != wantExp || ent.Version != l.ver {
+			if ent.Meta&kv.BitDelete != 0 || !bytes.Equal(ent.Value, valueBytes(line, want.Key, want.Len)) || ent.ExpiresAt != expiryOf(want.Exp) || ent.Version != l.ver {
 				status = "bad"
+			} else if want.Exp == 2 {
+				status = "exp" // stored, but shadows the key for reads
 			}
 		}
 		switch status {
@@ -477,7 +499,7 @@ func dump(db *NoKV.DB, specs []opSpec) string {
 			total = fmt.Sprint(len(specs[txnLines[v-1]].Ents))
 		}
 		_ = total
-		parts = append(parts, fmt.Sprintf("g:%d:%d:%d:%d:%d", v, g.present, g.dangling, g.bad, g.extra))
+		parts = append(parts, fmt.Sprintf("g:%d:%d:%d:%d:%d:%d", v, g.present, g.dangling, g.bad, g.extra, g.line))
 	}
 	// point reads through the transactional API must agree with the listing
 	badReads := 0
@@ -485,7 +507,7 @@ func dump(db *NoKV.DB, specs []opSpec) string {
 		for key, nv := range newest {
 			item, err := txn.Get([]byte(key))
 			switch nv.status {
-			case "del":
+			case "del", "exp":
 				if err != utils.ErrKeyNotFound {
 					badReads++
 				}
